@@ -4,6 +4,8 @@ Msg(m, q) == [m |-> m, top |-> <<"a">>, q |-> q, ret |-> FALSE, plen |-> 1, psum
 Will == [m |-> "w", top |-> <<"w">>, q |-> 0, ret |-> FALSE, plen |-> 1, psum |-> 2]
 Connect(cid, clean, haswill) == [t |-> "CONNECT", cid |-> cid, clean |-> clean, haswill |-> haswill, will |-> IF haswill THEN Will ELSE NoMsg]
 Pub(id, m, q) == [t |-> "PUBLISH", id |-> id, dup |-> FALSE, msg |-> Msg(m, q)]
+PubR(id, m, q) == [t |-> "PUBLISH", id |-> id, dup |-> FALSE, msg |-> [Msg(m, q) EXCEPT !.ret = TRUE]]
+Ping == [t |-> "PINGREQ"]
 Rel(id) == [t |-> "PUBREL", id |-> id]
 SubW(id) == [t |-> "SUBSCRIBE", id |-> id, subs |-> <<[f |-> <<"w">>, q |-> 0]>>]
 Sub(id, q) == [t |-> "SUBSCRIBE", id |-> id, subs |-> <<[f |-> <<"a">>, q |-> q]>>]
